@@ -61,7 +61,18 @@ func vJoinSetup(timed bool, closeInput bool, sink bool) *vJoinEnv {
 	vAssume(err == nil)
 	e.d = d
 	if sink {
-		vSink(d.output)
+		if vChoose("lazy-consumer", 2) == 1 {
+			// the consumer takes a slice only when the discipline is blocked on the (one-slot) output
+			vOnBlock(d.output, func() {
+				if len(d.output) == 0 {
+					vDecline()
+					return
+				}
+				<-d.output
+			})
+		} else {
+			vSink(d.output)
+		}
 	}
 	vOnSend(d.output, func(v any) {
 		s := v.([]int)
